@@ -53,12 +53,12 @@ NextName == EName(Len(w.net) + 1)
 ACUpdate(c, dt) == Can /\ "client" \in Calls /\ Apply(DoCUpdate(w, c, dt), [a |-> "cupdate", c |-> c, dt |-> dt, as |-> NextName])
 ASUpdate(dt) == Can /\ "time" \in Calls /\ Apply(DoSUpdate(w, dt), [a |-> "supdate", dt |-> dt, as |-> NextName])
 ASDeliver(k, from) ==
-    /\ Can /\ k \in 1..Len(w.net) /\ w.net[k].org # "S"
+    /\ Can /\ "deliver" \in Calls /\ k \in 1..Len(w.net) /\ w.net[k].org # "S"
     /\ Get(w.pres, k, 0) < MaxPresent
     /\ (from = OriginAddr(w, w.net[k]) \/ "readdress" \in Calls)
     /\ Apply(DoSDeliver(w, k, from), [a |-> "sdeliver", d |-> EName(k), from |-> from, as |-> NextName])
 ACDeliver(c, k) ==
-    /\ Can /\ k \in 1..Len(w.net) /\ w.net[k].org = "S"
+    /\ Can /\ "deliver" \in Calls /\ k \in 1..Len(w.net) /\ w.net[k].org = "S"
     /\ Get(w.pres, k, 0) < MaxPresent
     /\ (w.net[k].to = Clients[c].addr \/ "readdress" \in Calls)
     /\ Apply(DoCDeliver(w, c, k), [a |-> "cdeliver", c |-> c, d |-> EName(k)])
@@ -90,6 +90,15 @@ ASPayload(id) == /\ Can /\ "payload" \in Calls /\ ctl.tag <= 3
                  /\ ctl' = [ctl EXCEPT !.steps = @ + 1, !.tag = @ + 1]
 ASDisconnect(id) == Can /\ "disconnect" \in Calls /\ ById(w, id) # 0 /\ Apply(DoSDisconnect(w, id), [a |-> "sdisconnect", id |-> id, as |-> NextName])
 ACDisconnect(c) == Can /\ "disconnect" \in Calls /\ w.cl[c].state = "Conn" /\ Apply(DoCDisconnect(w, c), [a |-> "cdisconnect", c |-> c, as |-> NextName])
+\* the client leaves and its disconnect packet reaches the server (one step)
+ACLeave(c) ==
+    /\ Can /\ "leave" \in Calls /\ w.cl[c].state = "Conn"
+    /\ LET r1 == DoCDisconnect(w, c)
+           r2 == DoSDeliver(r1.w, Len(r1.w.net), Clients[c].addr)
+       IN /\ w' = r2.w
+          /\ obs' = FoldObs(obs, <<r1.ev, r2.ev>>, 1)
+    /\ hist' = IF Export THEN hist \o <<[a |-> "cdisconnect", c |-> c, as |-> NextName], [a |-> "sdeliver", d |-> NextName]>> ELSE hist
+    /\ ctl' = [ctl EXCEPT !.steps = @ + 1]
 
 Ids == {Tokens[t].id : t \in DOMAIN Tokens}
 Next == \/ \E c \in DOMAIN Clients : \E dt \in Dts : ACUpdate(c, dt) \/ AExchange(c, dt)
@@ -97,7 +106,7 @@ Next == \/ \E c \in DOMAIN Clients : \E dt \in Dts : ACUpdate(c, dt) \/ AExchang
         \/ \E k \in 1..24 : \E a \in Addrs : ASDeliver(k, a)
         \/ \E c \in DOMAIN Clients : \E k \in 1..24 : ACDeliver(c, k)
         \/ \E tk \in CraftToks : \E k \in 1..24 : \E a \in Addrs : ACraft(tk, k, a)
-        \/ \E c \in DOMAIN Clients : ACPayload(c) \/ ACDisconnect(c)
+        \/ \E c \in DOMAIN Clients : ACPayload(c) \/ ACDisconnect(c) \/ ACLeave(c)
         \/ \E id \in Ids : ASPayload(id) \/ ASDisconnect(id)
 
 Spec == Init /\ [][Next]_vars
@@ -107,7 +116,14 @@ Done == ctl.steps = MaxSteps
 ExportInv == (Export /\ (ExportAll \/ Done) /\ RandomElement(1..ExportOneIn) = 1) => PrintT(<<"PATH", ToJson([done |-> Done, steps |-> hist])>>)
 ExportCfg == PrintT(<<"CFG", ToJson(Cfg)>>)
 ASSUME ExportCfg
-View == <<w, obs, ctl>>
+\* When no action refers to individual emitted datagrams (no "deliver"), behaviours that differ only in the order of
+\* independent exchanges reach states that differ only in emission numbers: identify them
+Coarse == "deliver" \notin Calls
+View == IF Coarse
+        THEN <<[i \in 1..Len(w.slots) |-> [w.slots[i] EXCEPT !.lastRecv = 0, !.lastSend = 0]],
+               [a \in DOMAIN w.pending |-> w.pending[a].tok], w.entries, w.consumed, w.maxc,
+               [c \in DOMAIN w.cl |-> <<w.cl[c].state, w.cl[c].reason, w.cl[c].seq>>], obs.sess, obs.flags, ctl.steps>>
+        ELSE <<w, obs, ctl>>
 
 \* ---- named configurations ----
 Tok(id, ud, hostseq, expire, sealed, proto) ==
@@ -123,6 +139,9 @@ Toks_two == [T1 |-> Tok(10, 31, <<1>>, 30, "K", "P"), T2 |-> Tok(20, 61, <<1>>, 
 Clis_two == [c1 |-> [tok |-> "T1", addr |-> 1], c2 |-> [tok |-> "T2", addr |-> 2]]
 Toks_one == [T1 |-> Tok(10, 31, <<1>>, 30, "K", "P")]
 Clis_one == [c1 |-> [tok |-> "T1", addr |-> 1]]
+\* one client whose token has a 1 s timeout (C18: time-outs on both sides)
+Toks_t1 == [T1 |-> [Tok(10, 31, <<1>>, 30, "K", "P") EXCEPT !.timeout = 1]]
+P_LIVE == <<"C18", "C10", "C17">>
 \* invalid tokens next to a valid one
 Toks_bad == [TV |-> Tok(10, 31, <<1>>, 30, "K", "P"), TF |-> Tok(40, 41, <<1>>, 30, "F", "P"), TQ |-> Tok(41, 42, <<1>>, 30, "K", "Q"),
              TH |-> Tok(42, 43, <<2>>, 30, "K", "P"), TE |-> Tok(43, 44, <<1>>, 0, "K", "P")]
